@@ -315,6 +315,11 @@ func (db *DB) Merge() error {
 		return errors.New("not support mode `HintBPTSparseIdxMode`")
 	}
 
+	// Merge reads the indexes and the data files and replaces the active
+	// segment: it must not interleave with any transaction
+	db.mu.Lock()
+	defer db.mu.Unlock()
+
 	if db.closed {
 		return ErrDBClosed
 	}
@@ -1017,11 +1022,13 @@ func (db *DB) reWriteData(pendingMergeEntries []*Entry) error {
 	if len(pendingMergeEntries) == 0 {
 		return nil
 	}
-	tx, err := db.Begin(true)
+	// Merge holds db.mu: the rewrite transaction must not take it again
+	tx, err := newTx(db, true)
 	if err != nil {
 		db.isMerging = false
 		return err
 	}
+	tx.lockHeldByCaller = true
 
 	dataFile, err := NewDataFile(db.getDataPath(db.MaxFileID+1), db.opt.SegmentSize, db.opt.RWMode)
 	if err != nil {
